@@ -1,7 +1,5 @@
 From Verif Require Import Lib.Base Lib.Lockset.
 
-(* --- lock sets ----------------------------------------------------------------------------- *)
-
 Lemma lk_eqb_eq p q : lk_eqb p q = true <-> p = q.
 Proof.
   destruct p as [m x], q as [m' x']; unfold lk_eqb; cbn.
@@ -10,8 +8,11 @@ Proof.
   - intro H; injection H as -> ->; split; reflexivity.
 Qed.
 
-Lemma ls_eqb_eq L1 L2 : ls_eqb L1 L2 = true -> L1 = L2.
-Proof. intro H. apply (list_eqb_spec lk_eqb lk_eqb_eq). exact H. Qed.
+Lemma ls_eqb_eq L1 L2 : ls_eqb L1 L2 = true <-> L1 = L2.
+Proof. apply (list_eqb_spec lk_eqb lk_eqb_eq). Qed.
+
+Lemma ols_eqb_eq a b : ols_eqb a b = true <-> a = b.
+Proof. apply (option_eqb_spec ls_eqb ls_eqb_eq). Qed.
 
 Lemma ls_insert_in p q L : In p (ls_insert q L) <-> p = q \/ In p L.
 Proof.
@@ -28,20 +29,6 @@ Proof.
   destruct (lk_eqb q r); cbn; [tauto|]. intros [H|H]; auto.
 Qed.
 
-Lemma holds_false m L : holds m L = false -> forall x, ~ In (m, x) L.
-Proof.
-  unfold holds. intros H x Hin.
-  assert (E : existsb (fun p => fst p =? m) L = true).
-  { apply existsb_exists. exists (m, x). split; [exact Hin | cbn; apply N.eqb_refl]. }
-  congruence.
-Qed.
-
-Lemma holds_mode_true m x L : holds_mode m x L = true -> In (m, x) L.
-Proof.
-  unfold holds_mode. intro H. apply existsb_exists in H as [q [Hq He]].
-  apply lk_eqb_eq in He. subst q. exact Hq.
-Qed.
-
 Lemma excl_spec L1 L2 : excl L1 L2 = true ->
   exists m x1 x2, In (m, x1) L1 /\ In (m, x2) L2 /\ (x1 || x2) = true.
 Proof.
@@ -51,118 +38,41 @@ Proof.
   exists m, x1, x2. auto.
 Qed.
 
-(* --- the analysis is preserved by execution -------------------------------------------------- *)
-
-Lemma incl_app_app {A} (a b c : list A) : incl (a ++ c) ((a ++ b) ++ c).
-Proof. intros x H. apply in_app_or in H as [H|H]; apply in_or_app; [left; apply in_or_app; left|right]; exact H. Qed.
-
-Lemma incl_app_app2 {A} (a b c : list A) : incl (b ++ c) ((a ++ b) ++ c).
-Proof. intros x H. apply in_app_or in H as [H|H]; apply in_or_app; [left; apply in_or_app; right|right]; exact H. Qed.
-
-Lemma ank_step k L A c k' L' :
-  ank k L = Some A -> tstep (k, L) c = Some (k', L') ->
-  exists A', ank k' L' = Some A' /\ incl A' A.
+Lemma transfer_exec i L L' : transfer i L = Some L' -> exec i L = L'.
 Proof.
-  destruct k as [|s k0]; cbn [tstep]; [discriminate|].
-  destruct s as [|f w|m x|m x|a b|a b|b|]; cbn [ank an]; intros HA Hs; injection Hs as <- <-.
-  - (* Skip *)
-    destruct (ank k0 L) as [A0|]; [|discriminate]. injection HA as <-. exists A0. split; [reflexivity | apply incl_refl].
-  - (* Acc *)
-    destruct (ank k0 L) as [A0|]; [|discriminate]. injection HA as <-. exists A0. split; [reflexivity|].
-    intros y Hy. right. exact Hy.
-  - (* Lock *)
-    destruct (holds m L); [discriminate|].
-    destruct (ank k0 (ls_insert (m, x) L)) as [A0|]; [|discriminate]. injection HA as <-.
-    exists A0. split; [reflexivity | apply incl_refl].
-  - (* Unlock *)
-    destruct (holds_mode m x L); [|discriminate].
-    destruct (ank k0 (ls_remove (m, x) L)) as [A0|]; [|discriminate]. injection HA as <-.
-    exists A0. split; [reflexivity | apply incl_refl].
-  - (* Seq *)
-    destruct (an a L) as [[[L1|] A1]|] eqn:Ea; [| |discriminate].
-    + destruct (an b L1) as [[[L2|] A2]|] eqn:Eb; [| |discriminate].
-      * destruct (ank k0 L2) as [A3|] eqn:Ek; [|discriminate]. injection HA as <-.
-        exists (A1 ++ A2 ++ A3). split; [cbn [ank]; rewrite Ea, Eb, Ek; reflexivity|].
-        rewrite app_assoc. apply incl_refl.
-      * injection HA as <-. exists (A1 ++ A2). split; [cbn [ank]; rewrite Ea, Eb; reflexivity | apply incl_refl].
-    + injection HA as <-. exists A1. split; [cbn [ank]; rewrite Ea; reflexivity | apply incl_refl].
-  - (* Branch *)
-    destruct (an a L) as [[r1 A1]|] eqn:Ea; [|discriminate].
-    destruct (an b L) as [[r2 A2]|] eqn:Eb; [|discriminate].
-    destruct (join r1 r2) as [r|] eqn:J; [|discriminate].
-    destruct c.
-    + destruct r1 as [L1|].
-      * assert (r = Some L1) as ->.
-        { destruct r2 as [L2|]; cbn in J; [destruct (ls_eqb L1 L2)|]; congruence. }
-        destruct (ank k0 L1) as [A3|] eqn:Ek; [|discriminate]. injection HA as <-.
-        exists (A1 ++ A3). split; [cbn [ank]; rewrite Ea, Ek; reflexivity | apply incl_app_app].
-      * exists A1. split; [cbn [ank]; rewrite Ea; reflexivity|].
-        destruct r as [Lr|]; [destruct (ank k0 Lr); [|discriminate]|]; injection HA as <-;
-          intros y Hy; rewrite ?in_app_iff; tauto.
-    + destruct r2 as [L2|].
-      * assert (r = Some L2) as ->.
-        { destruct r1 as [L1|]; cbn in J; [|congruence].
-          destruct (ls_eqb L1 L2) eqn:E; [|discriminate]. apply ls_eqb_eq in E. congruence. }
-        destruct (ank k0 L2) as [A3|] eqn:Ek; [|discriminate]. injection HA as <-.
-        exists (A2 ++ A3). split; [cbn [ank]; rewrite Eb, Ek; reflexivity | apply incl_app_app2].
-      * exists A2. split; [cbn [ank]; rewrite Eb; reflexivity|].
-        destruct r as [Lr|]; [destruct (ank k0 Lr); [|discriminate]|]; injection HA as <-;
-          intros y Hy; rewrite ?in_app_iff; tauto.
-  - (* Loop *)
-    destruct (an b L) as [[[L1|] Ab]|] eqn:Eb; [| |discriminate].
-    + destruct (ls_eqb L1 L) eqn:E; [|discriminate]. apply ls_eqb_eq in E. subst L1.
-      destruct (ank k0 L) as [A3|] eqn:Ek; [|discriminate]. injection HA as <-.
-      destruct c.
-      * cbn [ank an]. rewrite Eb. cbn [ank an]. rewrite Eb.
-        assert (El : ls_eqb L L = true) by (apply (list_eqb_spec lk_eqb lk_eqb_eq); reflexivity).
-        rewrite El, Ek. exists (Ab ++ Ab ++ A3). split; [reflexivity|].
-        intros y Hy. apply in_app_or in Hy as [Hy|Hy]; [apply in_or_app; left; exact Hy | exact Hy].
-      * exists A3. split; [exact Ek|]. intros y Hy. apply in_or_app. right. exact Hy.
-    + destruct (ank k0 L) as [A3|] eqn:Ek; [|discriminate]. injection HA as <-.
-      destruct c.
-      * cbn [ank]. rewrite Eb. exists Ab. split; [reflexivity|]. intros y Hy. apply in_or_app. left. exact Hy.
-      * exists A3. split; [exact Ek|]. intros y Hy. apply in_or_app. right. exact Hy.
-  - (* Stop *)
-    destruct L as [|p L]; [|discriminate]. exists []. split; [reflexivity|]. intros y [].
+  destruct i as [|f w|m x|m x]; cbn; intro H.
+  - congruence.
+  - congruence.
+  - destruct (holds m L); congruence.
+  - destruct (holds_mode m x L); congruence.
 Qed.
 
-Lemma ank_head_acc f w k L A : ank (Acc f w :: k) L = Some A -> In (f, w, L) A.
+(* --- what check_nodes / accesses_from say about a single node -------------------------------- *)
+
+Lemma check_nodes_nth ls g : forall base n nd,
+  check_nodes ls base g = true -> nth_error g n = Some nd -> check_node ls (base + n) nd = true.
 Proof.
-  cbn [ank an]. destruct (ank k L); [|discriminate]. intro H; injection H as <-. left. reflexivity.
+  induction g as [|nd0 g IH]; intros base n nd Hc Hn; [destruct n; discriminate|].
+  cbn in Hc. apply andb_true_iff in Hc as [H0 Hrest].
+  destruct n as [|n]; cbn in Hn.
+  - injection Hn as <-. rewrite Nat.add_0_r. exact H0.
+  - rewrite <- plus_n_Sm. apply (IH (S base) n nd Hrest Hn).
 Qed.
 
-Lemma ank_done L A : ank [] L = Some A -> L = [].
-Proof. cbn. destruct L; [reflexivity | discriminate]. Qed.
-
-Lemma tstep_locks k L c k' L' :
-  tstep (k, L) c = Some (k', L') ->
-  L' = L \/ (exists m x, k = Lock m x :: k' /\ L' = ls_insert (m, x) L) \/ (exists m x, L' = ls_remove (m, x) L).
+Lemma accesses_from_nth ls g : forall base n nd f w L,
+  nth_error g n = Some nd -> n_instr nd = IAcc f w -> nth (base + n) ls None = Some L ->
+  In (f, w, L, n_owner nd) (accesses_from ls base g).
 Proof.
-  destruct k as [|s k0]; cbn; [discriminate|].
-  destruct s; intro H; injection H as <- <-; auto.
-  - right. left. eauto.
-  - right. right. eauto.
+  induction g as [|nd0 g IH]; intros base n nd f w L Hn Hi Hl; [destruct n; discriminate|].
+  destruct n as [|n]; cbn in Hn.
+  - injection Hn as ->. rewrite Nat.add_0_r in Hl. cbn [accesses_from]. rewrite Hi, Hl. left. reflexivity.
+  - rewrite <- plus_n_Sm in Hl. specialize (IH (S base) n nd f w L Hn Hi Hl).
+    cbn [accesses_from]. destruct (n_instr nd0); try exact IH.
+    destruct (nth base ls None); [right|]; exact IH.
 Qed.
-
-Lemma collect_in entries AG e : collect entries = Some AG -> In e entries ->
-  exists A, ank [e] [] = Some A /\ incl A AG.
-Proof.
-  revert AG. induction entries as [|e0 es IH]; intros AG Hc Hin; [destruct Hin|].
-  cbn [collect] in Hc.
-  destruct (ank [e0] []) as [A0|] eqn:E0; [|discriminate].
-  destruct (collect es) as [B|]; [|discriminate]. injection Hc as <-.
-  destruct Hin as [->|Hin].
-  - exists A0. split; [exact E0|]. intros y Hy. apply in_or_app. left. exact Hy.
-  - destruct (IH B eq_refl Hin) as [A [HA Hi]]. exists A. split; [exact HA|].
-    intros y Hy. apply in_or_app. right. apply Hi. exact Hy.
-Qed.
-
-(* --- the invariant of the thread system ------------------------------------------------------ *)
 
 Lemma nth_update_same {A} (l : list A) i a t : nth_error l i = Some t -> nth_error (update l i a) i = Some a.
-Proof.
-  revert i. induction l as [|b l IH]; intros [|i]; cbn; try discriminate; auto.
-Qed.
+Proof. revert i. induction l as [|b l IH]; intros [|i]; cbn; try discriminate; auto. Qed.
 
 Lemma nth_update_other {A} (l : list A) i j a : i <> j -> nth_error (update l i a) j = nth_error l j.
 Proof.
@@ -172,90 +82,182 @@ Qed.
 
 Section Sound.
   Variable skip : field -> bool.
-  Variable AG : list access.
-  Hypothesis HAG : pairwise_ok skip AG = true.
+  Variable single : nat -> bool.
+  Variable g : graph.
+  Variable entries : list nat.
+  Variable ls : assignment.
+  Hypothesis Hentries : check_entries ls entries = true.
+  Hypothesis Hnodes : check_nodes ls 0 g = true.
+  Hypothesis Howner : forallb (check_owner g) g = true.
+  Hypothesis Hpairs : pairwise_ok skip single (accesses_from ls 0 g) = true.
 
-  Definition covered (t : thread) : Prop := exists A, ank (fst t) (snd t) = Some A /\ incl A AG.
+  Definition tinv (t : thread) : Prop :=
+    match t with
+    | (At pc, L) => nth pc ls None = Some L
+    | (Done, L) => L = []
+    end.
 
   Definition Inv (S : list thread) : Prop :=
-    (forall i t, nth_error S i = Some t -> covered t) /\
+    (forall i t, nth_error S i = Some t -> tinv t) /\
     (forall i j ti tj, i <> j -> nth_error S i = Some ti -> nth_error S j = Some tj ->
-       forall m xi xj, In (m, xi) (snd ti) -> In (m, xj) (snd tj) -> xi = false /\ xj = false).
+       forall m xi xj, In (m, xi) (snd ti) -> In (m, xj) (snd tj) -> xi = false /\ xj = false) /\
+    (forall i j ti tj o, i <> j -> nth_error S i = Some ti -> nth_error S j = Some tj ->
+       owner_of g ti = Some o -> owner_of g tj = Some o -> single o = false).
 
-  Lemma step_inv S S' : Inv S -> step S S' -> Inv S'.
+  (* a step keeps a thread inside its owner group *)
+  Lemma tstep_owner t c t' o : tstep g t c = Some t' -> owner_of g t' = Some o -> owner_of g t = Some o.
   Proof.
-    intros [Hcov Hcomp] Hst. destruct Hst as [S i t c t' Hi Ht Hmay].
-    destruct t as [k L], t' as [k' L'].
-    split.
+    destruct t as [[pc|] L]; cbn [tstep]; [|discriminate].
+    destruct (nth_error g pc) as [nd|] eqn:Hn; [|discriminate].
+    unfold owner_of at 2. cbn [fst]. rewrite Hn.
+    destruct (n_succ nd) as [|s0 succs] eqn:Hs.
+    - intro H; injection H as <-. cbn. discriminate.
+    - destruct (nth_error (s0 :: succs) c) as [s|] eqn:Hc; [|discriminate].
+      intro H; injection H as <-. unfold owner_of. cbn [fst].
+      destruct (nth_error g s) as [nd'|] eqn:Hn'; [|discriminate].
+      intro H; injection H as <-.
+      rewrite forallb_forall in Howner. pose proof (Howner nd (nth_error_In _ _ Hn)) as Ho.
+      unfold check_owner in Ho. rewrite forallb_forall in Ho. rewrite Hs in Ho.
+      specialize (Ho s (nth_error_In _ _ Hc)). rewrite Hn' in Ho. apply Nat.eqb_eq in Ho. congruence.
+  Qed.
+
+  Lemma tstep_tinv t c t' : tinv t -> tstep g t c = Some t' -> tinv t'.
+  Proof.
+    destruct t as [[pc|] L]; cbn [tstep]; [|discriminate].
+    intros Hl. destruct (nth_error g pc) as [nd|] eqn:Hn; [|discriminate].
+    pose proof (check_nodes_nth ls g 0 pc nd Hnodes Hn) as Hc. cbn [Nat.add] in Hc.
+    unfold check_node in Hc. cbn [tinv] in Hl. rewrite Hl in Hc.
+    destruct (transfer (n_instr nd) L) as [L'|] eqn:Ht; [|discriminate].
+    apply transfer_exec in Ht. rewrite Ht.
+    destruct (n_succ nd) as [|s0 succs] eqn:Hs.
+    - intro H; injection H as <-. cbn. destruct L'; [reflexivity | discriminate].
+    - destruct (nth_error (s0 :: succs) c) as [s|] eqn:Hc2; [|discriminate].
+      intro H; injection H as <-. cbn.
+      rewrite forallb_forall in Hc. apply nth_error_In in Hc2. specialize (Hc s Hc2).
+      apply ols_eqb_eq in Hc. exact Hc.
+  Qed.
+
+  Lemma tstep_locks t c t' :
+    tstep g t c = Some t' ->
+    snd t' = snd t \/
+    (exists pc nd m x, fst t = At pc /\ nth_error g pc = Some nd /\ n_instr nd = ILock m x /\ snd t' = ls_insert (m, x) (snd t)) \/
+    (exists m x, snd t' = ls_remove (m, x) (snd t)).
+  Proof.
+    destruct t as [[pc|] L]; cbn [tstep]; [|discriminate].
+    destruct (nth_error g pc) as [nd|] eqn:Hn; [|discriminate].
+    assert (HL : exec (n_instr nd) L = L \/
+                 (exists m x, n_instr nd = ILock m x /\ exec (n_instr nd) L = ls_insert (m, x) L) \/
+                 (exists m x, exec (n_instr nd) L = ls_remove (m, x) L)).
+    { destruct (n_instr nd) as [|f w|m x|m x]; cbn; eauto.
+      right. left. eauto. }
+    destruct (n_succ nd) as [|s0 succs].
+    - intro H; injection H as <-. cbn [snd fst].
+      destruct HL as [->|[[m [x [Hi ->]]]|[m [x ->]]]]; eauto 10.
+    - destruct (nth_error (s0 :: succs) c); [|discriminate]. intro H; injection H as <-. cbn [snd fst].
+      destruct HL as [->|[[m [x [Hi ->]]]|[m [x ->]]]]; eauto 10.
+  Qed.
+
+  Lemma step_inv S S' : Inv S -> step g S S' -> Inv S'.
+  Proof.
+    intros [Hcov [Hcomp Hown]] Hst. destruct Hst as [S i t c t' Hi Ht Hmay].
+    split; [|split].
     - intros j tj Hj. destruct (Nat.eq_dec i j) as [<-|Hne].
-      + rewrite (nth_update_same S i (k', L') (k, L) Hi) in Hj. injection Hj as <-.
-        destruct (Hcov i (k, L) Hi) as [A [HA Hincl]]. cbn [fst snd] in HA.
-        destruct (ank_step k L A c k' L' HA Ht) as [A' [HA' Hi']].
-        exists A'. split; [exact HA'|]. intros y Hy. apply Hincl. apply Hi'. exact Hy.
-      + rewrite (nth_update_other S i j (k', L') Hne) in Hj. apply (Hcov j tj Hj).
-    - (* lock compatibility *)
-      assert (Hnew : forall j tj, j <> i -> nth_error S j = Some tj ->
-                forall m x xj, In (m, x) L' -> In (m, xj) (snd tj) -> x = false /\ xj = false).
+      + rewrite (nth_update_same S i t' t Hi) in Hj. injection Hj as <-.
+        apply (tstep_tinv t c t' (Hcov i t Hi) Ht).
+      + rewrite (nth_update_other S i j t' Hne) in Hj. apply (Hcov j tj Hj).
+    - assert (Hnew : forall j tj, j <> i -> nth_error S j = Some tj ->
+                forall m x xj, In (m, x) (snd t') -> In (m, xj) (snd tj) -> x = false /\ xj = false).
       { intros j tj Hne Hj m x xj Hin Hinj.
-        destruct (tstep_locks k L c k' L' Ht) as [->|[[m0 [x0 [-> ->]]]|[m0 [x0 ->]]]].
-        - apply (Hcomp i j (k, L) tj (not_eq_sym Hne) Hi Hj m x xj Hin Hinj).
+        destruct (tstep_locks t c t' Ht) as [E|[(pc & nd & m0 & x0 & Hpc & Hn & Hins & E)|(m0 & x0 & E)]];
+          rewrite E in Hin.
+        - apply (Hcomp i j t tj (not_eq_sym Hne) Hi Hj m x xj Hin Hinj).
         - apply ls_insert_in in Hin as [Heq|Hin].
           + injection Heq as -> ->. unfold may_step in Hmay. rewrite Hi in Hmay.
+            destruct t as [ts L]. cbn [fst] in Hpc. subst ts. rewrite Hn, Hins in Hmay.
             apply (Hmay j tj Hne Hj xj Hinj).
-          + apply (Hcomp i j (Lock m0 x0 :: k', L) tj (not_eq_sym Hne) Hi Hj m x xj Hin Hinj).
+          + apply (Hcomp i j t tj (not_eq_sym Hne) Hi Hj m x xj Hin Hinj).
         - apply ls_remove_in in Hin.
-          apply (Hcomp i j (k, L) tj (not_eq_sym Hne) Hi Hj m x xj Hin Hinj). }
+          apply (Hcomp i j t tj (not_eq_sym Hne) Hi Hj m x xj Hin Hinj). }
       intros a b ta tb Hab Ha Hb m xa xb Hina Hinb.
       destruct (Nat.eq_dec i a) as [<-|Hia]; destruct (Nat.eq_dec i b) as [<-|Hib].
       + congruence.
-      + rewrite (nth_update_same S i (k', L') (k, L) Hi) in Ha. injection Ha as <-.
-        rewrite (nth_update_other S i b (k', L') Hib) in Hb.
+      + rewrite (nth_update_same S i t' t Hi) in Ha. injection Ha as <-.
+        rewrite (nth_update_other S i b t' Hib) in Hb.
         apply (Hnew b tb (not_eq_sym Hib) Hb m xa xb Hina Hinb).
-      + rewrite (nth_update_same S i (k', L') (k, L) Hi) in Hb. injection Hb as <-.
-        rewrite (nth_update_other S i a (k', L') Hia) in Ha.
+      + rewrite (nth_update_same S i t' t Hi) in Hb. injection Hb as <-.
+        rewrite (nth_update_other S i a t' Hia) in Ha.
         destruct (Hnew a ta (not_eq_sym Hia) Ha m xb xa Hinb Hina). auto.
-      + rewrite (nth_update_other S i a (k', L') Hia) in Ha.
-        rewrite (nth_update_other S i b (k', L') Hib) in Hb.
+      + rewrite (nth_update_other S i a t' Hia) in Ha.
+        rewrite (nth_update_other S i b t' Hib) in Hb.
         apply (Hcomp a b ta tb Hab Ha Hb m xa xb Hina Hinb).
+    - intros a b ta tb o Hab Ha Hb Hoa Hob.
+      destruct (Nat.eq_dec i a) as [<-|Hia]; destruct (Nat.eq_dec i b) as [<-|Hib].
+      + congruence.
+      + rewrite (nth_update_same S i t' t Hi) in Ha. injection Ha as <-.
+        rewrite (nth_update_other S i b t' Hib) in Hb.
+        apply (Hown i b t tb o Hab Hi Hb (tstep_owner t c t' o Ht Hoa) Hob).
+      + rewrite (nth_update_same S i t' t Hi) in Hb. injection Hb as <-.
+        rewrite (nth_update_other S i a t' Hia) in Ha.
+        apply (Hown a i ta t o Hab Ha Hi Hoa (tstep_owner t c t' o Ht Hob)).
+      + rewrite (nth_update_other S i a t' Hia) in Ha.
+        rewrite (nth_update_other S i b t' Hib) in Hb.
+        apply (Hown a b ta tb o Hab Ha Hb Hoa Hob).
   Qed.
 
-  Lemma steps_inv S S' : Inv S -> steps S S' -> Inv S'.
+  Lemma steps_inv S S' : Inv S -> steps g S S' -> Inv S'.
   Proof. intros HI Hs. induction Hs as [|S1 S2 S3 _ IH Hst]; [exact HI|]. apply (step_inv S2 S3 (IH HI) Hst). Qed.
 
-  Lemma inv_not_racy S : Inv S -> ~ racy skip S.
+  Lemma inv_initial S0 : initial single g entries S0 -> Inv S0.
   Proof.
-    intros [Hcov Hcomp] (i & j & f & w1 & w2 & k1 & k2 & L1 & L2 & Hne & Hi & Hj & Hw & Hsk).
-    destruct (Hcov i _ Hi) as [A1 [HA1 Hin1]]. destruct (Hcov j _ Hj) as [A2 [HA2 Hin2]].
-    cbn [fst snd] in HA1, HA2.
-    apply ank_head_acc in HA1. apply ank_head_acc in HA2.
-    apply Hin1 in HA1. apply Hin2 in HA2.
-    unfold pairwise_ok in HAG. rewrite forallb_forall in HAG.
-    specialize (HAG _ HA1). rewrite forallb_forall in HAG. specialize (HAG _ HA2).
-    cbn [conflict_free] in HAG. rewrite N.eqb_refl, Hw, Hsk in HAG. cbn in HAG.
-    destruct (excl_spec L1 L2 HAG) as (m & x1 & x2 & H1 & H2 & Hx).
-    destruct (Hcomp i j _ _ Hne Hi Hj m x1 x2 H1 H2) as [-> ->]. discriminate.
+    intros [Hinit Huniq]. split; [|split; [|exact Huniq]].
+    - intros i t Hi. apply nth_error_In in Hi. destruct (Hinit t Hi) as [e [He ->]]. cbn.
+      unfold check_entries in Hentries. rewrite forallb_forall in Hentries.
+      apply ols_eqb_eq. apply Hentries. exact He.
+    - intros i j ti tj _ Hi _ m xi xj Hini _.
+      apply nth_error_In in Hi. destruct (Hinit ti Hi) as [e [_ ->]]. destruct Hini.
   Qed.
 
-  Lemma inv_finished_unlocked S : Inv S -> forall i L, nth_error S i = Some ([], L) -> L = [].
+  Lemma inv_not_racy S : Inv S -> ~ racy skip g S.
   Proof.
-    intros [Hcov _] i L Hi. destruct (Hcov i _ Hi) as [A [HA _]]. apply (ank_done L A HA).
+    intros [Hcov [Hcomp Hown]] (i & j & ti & tj & f & w1 & w2 & Hne & Hi & Hj & Ha1 & Ha2 & Hw & Hsk).
+    destruct Ha1 as (pc1 & nd1 & Hp1 & Hn1 & Hi1). destruct Ha2 as (pc2 & nd2 & Hp2 & Hn2 & Hi2).
+    destruct ti as [ts1 L1], tj as [ts2 L2]. cbn [fst] in Hp1, Hp2. subst ts1 ts2.
+    pose proof (Hcov i _ Hi) as T1. pose proof (Hcov j _ Hj) as T2. cbn [tinv] in T1, T2.
+    pose proof (accesses_from_nth ls g 0 pc1 nd1 f w1 L1 Hn1 Hi1 T1) as A1.
+    pose proof (accesses_from_nth ls g 0 pc2 nd2 f w2 L2 Hn2 Hi2 T2) as A2.
+    pose proof Hpairs as HP. unfold pairwise_ok in HP. rewrite forallb_forall in HP.
+    specialize (HP _ A1). rewrite forallb_forall in HP. specialize (HP _ A2).
+    cbn [conflict_free] in HP. rewrite N.eqb_refl, Hw, Hsk in HP. cbn [negb andb orb] in HP.
+    apply orb_true_iff in HP as [HP|HP].
+    - destruct (excl_spec L1 L2 HP) as (m & x1 & x2 & H1 & H2 & Hx).
+      destruct (Hcomp i j _ _ Hne Hi Hj m x1 x2 H1 H2) as [-> ->]. discriminate.
+    - apply andb_true_iff in HP as [Ho Hs]. apply Nat.eqb_eq in Ho.
+      assert (O1 : owner_of g (At pc1, L1) = Some (n_owner nd1)) by (unfold owner_of; cbn [fst]; rewrite Hn1; reflexivity).
+      assert (O2 : owner_of g (At pc2, L2) = Some (n_owner nd1)) by (unfold owner_of; cbn [fst]; rewrite Hn2, Ho; reflexivity).
+      rewrite (Hown i j _ _ _ Hne Hi Hj O1 O2) in Hs. discriminate.
   Qed.
 End Sound.
 
-Theorem lockset_sound_lemma (skip : field -> bool) (entries : list stmt) :
-  analysis_ok skip entries = true ->
-  forall S0, initial entries S0 ->
-  forall S, steps S0 S ->
-    ~ racy skip S /\ (forall i L, nth_error S i = Some ([], L) -> L = []).
+(* Soundness of a checked assignment, whoever produced it. *)
+Lemma checked_assignment_sound (skip : field -> bool) (single : nat -> bool) (g : graph) (entries : list nat) (ls : assignment) :
+  check_assignment skip single g entries ls = true ->
+  forall S0, initial single g entries S0 ->
+  forall S, steps g S0 S ->
+    ~ racy skip g S /\ (forall i L, nth_error S i = Some (Done, L) -> L = []).
 Proof.
-  unfold analysis_ok. destruct (collect entries) as [AG|] eqn:EC; [|discriminate].
-  intros Hok S0 Hinit S Hsteps.
-  assert (HI0 : Inv AG S0).
-  { split.
-    - intros i t Hi. apply nth_error_In in Hi. destruct (Hinit t Hi) as [e [He ->]].
-      destruct (collect_in entries AG e EC He) as [A [HA Hincl]]. exists A. split; assumption.
-    - intros i j ti tj _ Hi Hj m xi xj Hini _.
-      apply nth_error_In in Hi. destruct (Hinit ti Hi) as [e [_ ->]]. destruct Hini. }
-  pose proof (steps_inv AG S0 S HI0 Hsteps) as HI.
-  split; [apply (inv_not_racy skip AG Hok S HI) | apply (inv_finished_unlocked AG S HI)].
+  unfold check_assignment. intro H.
+  apply andb_true_iff in H as [H Hp]. apply andb_true_iff in H as [H Ho]. apply andb_true_iff in H as [H Hn].
+  apply andb_true_iff in H as [_ He].
+  intros S0 Hinit S Hsteps.
+  pose proof (steps_inv single g ls Hn Ho S0 S (inv_initial single g entries ls He S0 Hinit) Hsteps) as HI.
+  split.
+  - apply (inv_not_racy skip single g ls Hp S HI).
+  - intros i L Hi. destruct HI as [Hcov _]. apply (Hcov i _ Hi).
 Qed.
+
+Lemma lockset_sound_lemma (skip : field -> bool) (single : nat -> bool) (g : graph) (entries : list nat) :
+  analysis_ok skip single g entries = true ->
+  forall S0, initial single g entries S0 ->
+  forall S, steps g S0 S ->
+    ~ racy skip g S /\ (forall i L, nth_error S i = Some (Done, L) -> L = []).
+Proof. unfold analysis_ok. apply checked_assignment_sound. Qed.
